@@ -81,6 +81,15 @@ Proof.
   exact (proj2 (proj2 (proj2 (proj2 (uw_keep _ _ _ _ _ _ _ W E))))).
 Qed.
 
+Lemma unapply_up : forall s a b s',
+    wf s -> unapply pstate ccmd cunexec s a b = Ok s' ->
+    b = up (cores s) (Z.to_nat (hgt (cores s) a - hgt (cores s) b)) a.
+Proof.
+  intros s a b s' W H. unfold unapply in H. dbind H. destruct a0 as [s1 w]. cbn in H.
+  destruct (N.eqb w b) eqn:Ew; inversion H; subst. apply N.eqb_eq in Ew. subst.
+  exact (proj1 (proj2 (proj2 (uw_keep _ _ _ _ _ _ _ W E)))).
+Qed.
+
 (** a failing apply_path restores every block that was applied before; a successful one only applies blocks that were
     not applied before *)
 Lemma ap_keep : forall path s from s' ok cur,
@@ -189,19 +198,30 @@ Proof. intros s s' k a F. apply up_static. exact (fr_static _ _ F). Qed.
 Lemma quiet_compare_fork : forall sc cr s c bc bt s' r,
     quiet s -> compare_fork pstate ccmd cexec cunexec sc cr s c bc bt = Ok (s', r) ->
     quiet s' /\ frame s (mkSt pstate ccmd (blocks _ _ s') (root _ _ s') (tip _ _ s) (napp _ _ s') (pst _ _ s')) /\
-    (0 <= r -> tip _ _ s' = tip _ _ s) /\ (r < 0 -> tip _ _ s' = c).
+    (0 <= r -> tip _ _ s' = tip _ _ s) /\ (r < 0 -> tip _ _ s' = c) /\
+    (* the trace of a won comparison, for the invariants proved elsewhere *)
+    (r < 0 -> exists fork s1 s2 vf s3 s4,
+        apply pstate ccmd cexec cunexec s fork c = Ok (s1, true) /\
+        unapplyWhile pstate ccmd cunexec (fuel_of pstate ccmd s1) s1 c fork (not_full ccmd) = Ok (s2, vf) /\
+        unapply pstate ccmd cunexec s2 (tip _ _ s) fork = Ok s3 /\
+        apply pstate ccmd cexec cunexec s3 vf c = Ok (s4, true) /\
+        s' = mkSt pstate ccmd (blocks _ _ s4) (root _ _ s4) c (napp _ _ s4) (pst _ _ s4) /\
+        is_act (cores s3) vf /\
+        Z.of_N (napp _ _ s3) = hgt (cores s) vf - hgt (cores s) (root _ _ s) + 1 /\
+        frame s s1 /\ frame s s2 /\ frame s s3 /\
+        (vf = fork -> exists k, fork = up (cores s) k (tip _ _ s))).
 Proof.
   intros sc cr s c bc bt s' r Q H. pose proof Q as (W & Ta & Hn). unfold compare_fork in H.
   destruct (lca ccmd (blocks pstate ccmd s) _ (tip pstate ccmd s) c) as [fork|]; [|discriminate].
   destruct (find ccmd (blocks pstate ccmd s) fork) as [bf|]; [|discriminate].
   destruct (negb (cr _ _) && negb (cr _ _)).
-  { inversion H; subst s' r. split; [exact Q|]. split; [destruct s; apply frame_refl; exact W|]. split; [reflexivity|lia]. }
+  { inversion H; subst s' r. split; [exact Q|]. split; [destruct s; apply frame_refl; exact W|]. split; [reflexivity|split; lia]. }
   dbind H. destruct a as [s1 ok1].
   destruct (apply_arith _ _ _ _ _ W E) as (F1 & T1 & N1f). destruct (apply_keep _ _ _ _ _ W E) as (K1f & K1t).
   pose proof (fr_wf _ _ F1) as W1. pose proof (fun j => frame_hgt _ _ j F1) as HS1. pose proof (fr_tip _ _ F1) as Tp1. pose proof (fr_root _ _ F1) as R1.
   destruct ok1; cbn [negb] in H.
   2:{ inversion H; subst s' r. destruct (N1f eq_refl) as [A1 _]. pose proof (K1f eq_refl _ Ta) as Ta1.
-      split; [|split; [|split; [intros _; exact Tp1|lia]]].
+      split; [|split; [|split; [intros _; exact Tp1|split; lia]]].
       - split; [exact W1|]. rewrite Tp1, R1, A1, ?HS1. split; [exact Ta1|exact Hn].
       - rewrite <- Tp1. destruct s1; exact F1. }
   destruct (T1 eq_refl) as (A1 & B1 & C1). specialize (K1t eq_refl).
@@ -215,7 +235,7 @@ Proof.
     assert (Ta2 : is_act (cores s2) (tip _ _ s)).
     { apply (unapply_keep _ _ _ _ W1 E0 _ Ta1). intros k Hk. rewrite ?HS1 in Hk. rewrite (frame_up _ _ _ _ F1). apply NT. exact Hk. }
     pose proof (frame_trans _ _ _ F1 F2) as F12. pose proof (fun j => frame_hgt _ _ j F12) as HS12.
-    split; [|split; [|split; [intros _; rewrite (fr_tip _ _ F12); reflexivity|apply Z.leb_le in Sg; lia]]].
+    split; [|split; [|split; [intros _; rewrite (fr_tip _ _ F12); reflexivity|apply Z.leb_le in Sg; split; lia]]].
     + split; [exact (fr_wf _ _ F12)|]. rewrite (fr_tip _ _ F12), (fr_root _ _ F12), ?HS12. split; [exact Ta2|].
       rewrite ?HS1 in A2. lia.
     + rewrite <- (fr_tip _ _ F12). destruct s2; exact F12.
@@ -247,7 +267,12 @@ Proof.
     pose proof (frame_trans _ _ _ F13 F4) as F14. pose proof (fun j => frame_hgt _ _ j F14) as HS14. pose proof (fr_wf _ _ F14) as W4.
     destruct ok2.
     + inversion H; subst s' r. destruct (T4 eq_refl) as (A4 & B4 & C4). rewrite ?HS13 in A4.
-      split; [|split; [|split; [lia|intros _; reflexivity]]].
+      split; [|split; [|split; [lia|split; [intros _; reflexivity|]]]].
+      3:{ intros _. exists fork, s1, s2, vf, s3, s4. rewrite ?HS1 in A2.
+          split; [exact E|]. split; [exact E0|]. split; [exact E1|]. split; [exact E2|]. split; [reflexivity|].
+          split; [exact Hvf3|]. split; [lia|]. split; [exact F1|]. split; [exact F12|]. split; [exact F13|].
+          intros Hv. exists (Z.to_nat (hgt (cores s) (tip pstate ccmd s) - hgt (cores s) fork)).
+          pose proof (unapply_up _ _ _ _ W2 E1) as Hu. rewrite ?HS12 in Hu. rewrite (frame_up _ _ _ _ F12) in Hu. exact Hu. }
       * unfold quiet, wf, cores. cbn [blocks root tip napp]. fold (cores s4). split; [exact W4|].
         rewrite (fr_root _ _ F14), ?HS14. split.
         -- destruct (N.eq_dec vf c) as [Heq|Hne]; [apply C4; rewrite <- Heq; exact Hvf3|apply B4; exact Hne].
@@ -261,7 +286,7 @@ Proof.
       destruct (apply_arith _ _ _ _ _ W5 E4) as (F6 & T6 & _).
       destruct ok3; inversion H; subst s' r. destruct (T6 eq_refl) as (A6 & B6 & C6). rewrite ?HS15 in A6.
       pose proof (frame_trans _ _ _ F15 F6) as F16. pose proof (fun j => frame_hgt _ _ j F16) as HS16.
-      split; [|split; [|split; [intros _; exact (fr_tip _ _ F16)|lia]]].
+      split; [|split; [|split; [intros _; exact (fr_tip _ _ F16)|split; lia]]].
       * split; [exact (fr_wf _ _ F16)|]. rewrite (fr_tip _ _ F16), (fr_root _ _ F16), ?HS16. split.
         -- destruct (N.eq_dec fork (tip _ _ s)) as [Heq|Hne]; [|apply B6; exact Hne].
            apply C6. rewrite <- Heq. apply IA5. apply B4. exact Hvf3.
@@ -288,7 +313,7 @@ Proof.
   assert (Fork : compare_fork pstate ccmd cexec cunexec sc cr s c bc bt = Ok (s', r) ->
                  quiet s' /\ same_static (cores s) (cores s') /\ root _ _ s' = root _ _ s /\
                  (0 <= r -> tip _ _ s' = tip _ _ s /\ napp _ _ s' = napp _ _ s) /\ (r < 0 -> Some c = Some (tip _ _ s'))).
-  { intros HF. destruct (quiet_compare_fork _ _ _ _ _ _ _ _ Q HF) as (Q' & F & Hp & Hm).
+  { intros HF. destruct (quiet_compare_fork _ _ _ _ _ _ _ _ Q HF) as (Q' & F & Hp & Hm & _).
     destruct F as [_ FS FR _]. cbn [blocks root] in FS, FR. unfold cores in FS. cbn [blocks] in FS. fold (cores s') in FS.
     split; [exact Q'|]. split; [exact FS|]. split; [exact FR|]. split.
     - intros Hr. specialize (Hp Hr). split; [exact Hp|].
